@@ -80,6 +80,7 @@ OUTSIDE = [
   'the literal property text "grow_to_at_least returns only when all elements below n are constructed": the code and its documentation only promise allocated; encoded is constructed-or-under-construction-by-a-running-call (see NOTES.md)',
   'reserve/shrink_to_fit/resize/clear/copy/move/swap; iterators other than ++/-- cache validity; non-TSO weak memory (sequential consistency assumed)',
   'interleavings inside spin_wait_while_eq back-off (cut to its contract)',
+  'table extension racing with a still-unpublished embedded segment (allocate_long_table waiting for segment 2 while its owner allocates): needs a call spanning indices 5..8 from size 4; the *_lt thread units only run push_back from 7/8 pre-grown elements (mutation M8 in NOTES.md is therefore missed)',
 ]
 STUBS = [
   'vp_allocator<T>::allocate/deallocate -> vp_alloc_elem/vp_alloc_tab: fresh block of exactly the requested bytes from a static per-thread pool, never fails; deallocate checks pointer/size/double free',
